@@ -40,6 +40,8 @@ type latticeCfg struct {
 	VisEnc, VisComp     bool // visitor side (visitor frpc -> frps), keyed by the secret key
 	UDPEnc, UDPComp     bool
 	PayloadKiB          int
+	// transport.bandwidthLimit = 10MB (never throttles here) in client or server mode, "" = none
+	TCPBW, WebBW, WebPwBW, STCPBW, UDPBW string
 }
 
 func (l latticeCfg) sig() string { return fmt.Sprintf("%+v", l) }
@@ -92,6 +94,8 @@ func genLattice(idx int, rng *rand.Rand) latticeCfg {
 	// configurations without any shared token: the control cipher and the per-proxy encryption are
 	// then keyed from the empty string, and must still be there
 	l.Auth = []string{"", "", "empty", "oidc"}[rng.Intn(4)]
+	bw := func() string { return []string{"", "client", "client", "server"}[rng.Intn(4)] }
+	l.TCPBW, l.WebBW, l.WebPwBW, l.STCPBW, l.UDPBW = bw(), bw(), bw(), bw(), bw()
 	return l
 }
 
@@ -101,6 +105,7 @@ type leg struct {
 	Path     string // "P" = capture between the proxy-owning frpc and frps, "V" = visitor frpc and frps
 	Enc      bool
 	Comp     bool
+	BW       string // bandwidthLimit mode of the proxy: "" (none) | client | server
 	Up, Down string // payload markers user->backend and backend->user
 	Flowed   bool   // both markers were delivered end to end (otherwise absence proves nothing)
 }
@@ -323,11 +328,11 @@ func latticeCase(c *h.Case) {
 		{"http-password-in-clear", "the tcpmux proxy password", pwTMux},
 	}
 	legs := []*leg{
-		{Name: "tcp", Path: "P", Enc: l.TCPEnc, Comp: l.TCPComp, Up: mk(), Down: mk()},
-		{Name: "http", Path: "P", Enc: l.WebEnc, Comp: l.WebComp, Up: mk(), Down: mk()},
-		{Name: "http-auth", Path: "P", Enc: l.WebPwEnc, Comp: l.WebPwComp, Up: mk(), Down: mk()},
-		{Name: "stcp", Path: "P", Enc: l.STCPEnc, Comp: l.STCPComp, Up: mk(), Down: mk()},
-		{Name: "udp", Path: "P", Enc: l.UDPEnc, Comp: l.UDPComp, Up: mk(), Down: mk()},
+		{Name: "tcp", Path: "P", Enc: l.TCPEnc, Comp: l.TCPComp, BW: l.TCPBW, Up: mk(), Down: mk()},
+		{Name: "http", Path: "P", Enc: l.WebEnc, Comp: l.WebComp, BW: l.WebBW, Up: mk(), Down: mk()},
+		{Name: "http-auth", Path: "P", Enc: l.WebPwEnc, Comp: l.WebPwComp, BW: l.WebPwBW, Up: mk(), Down: mk()},
+		{Name: "stcp", Path: "P", Enc: l.STCPEnc, Comp: l.STCPComp, BW: l.STCPBW, Up: mk(), Down: mk()},
+		{Name: "udp", Path: "P", Enc: l.UDPEnc, Comp: l.UDPComp, BW: l.UDPBW, Up: mk(), Down: mk()},
 	}
 	legTCP, legWeb, legWebPw, legSTCP, legUDP := legs[0], legs[1], legs[2], legs[3], legs[4]
 	legVis := &leg{Name: "stcp-visitor", Path: "V", Enc: l.VisEnc, Comp: l.VisComp, Up: legSTCP.Up, Down: legSTCP.Down}
@@ -407,17 +412,21 @@ func latticeCase(c *h.Case) {
 	if l.SrvMode == "ca" {
 		ct.Cert = "good"
 	}
-	tr := func(enc, comp bool) string {
-		return fmt.Sprintf("transport.useEncryption = %v\ntransport.useCompression = %v\n", enc, comp)
+	tr := func(enc, comp bool, bw ...string) string {
+		t := fmt.Sprintf("transport.useEncryption = %v\ntransport.useCompression = %v\n", enc, comp)
+		if len(bw) > 0 && bw[0] != "" {
+			t += fmt.Sprintf("transport.bandwidthLimit = \"10MB\"\ntransport.bandwidthLimitMode = \"%s\"\n", bw[0])
+		}
+		return t
 	}
 	var sb strings.Builder
 	sb.WriteString(clientCommonTOML(pRelayP, ps.clientAuth(), userP, l.Protocol, l.Mux, l.Scopes, l.PoolCount, ct, false))
 	fmt.Fprintf(&sb, "metadatas = { mk = \"%s\" }\n", metaP)
-	fmt.Fprintf(&sb, "\n[[proxies]]\nname = \"%s\"\ntype = \"tcp\"\nlocalIP = \"127.0.0.1\"\nlocalPort = %d\nremotePort = %d\nmetadatas = { pm = \"%s\" }\n%s", nTCP, pBeTCP, pTCP, pmeta, tr(l.TCPEnc, l.TCPComp))
-	fmt.Fprintf(&sb, "\n[[proxies]]\nname = \"%s\"\ntype = \"http\"\nlocalIP = \"127.0.0.1\"\nlocalPort = %d\ncustomDomains = [\"%s\"]\n%s", nWeb, pBeHTTP, domWeb, tr(l.WebEnc, l.WebComp))
-	fmt.Fprintf(&sb, "\n[[proxies]]\nname = \"%s\"\ntype = \"http\"\nlocalIP = \"127.0.0.1\"\nlocalPort = %d\ncustomDomains = [\"%s\"]\nhttpUser = \"%s\"\nhttpPassword = \"%s\"\n%s", nWebPw, pBeHTTP, domWebPw, httpUser, pwWeb, tr(l.WebPwEnc, l.WebPwComp))
-	fmt.Fprintf(&sb, "\n[[proxies]]\nname = \"%s\"\ntype = \"stcp\"\nlocalIP = \"127.0.0.1\"\nlocalPort = %d\nsecretKey = \"%s\"\nallowUsers = [\"*\"]\n%s", nSTCP, pBeTCP, skSTCP, tr(l.STCPEnc, l.STCPComp))
-	fmt.Fprintf(&sb, "\n[[proxies]]\nname = \"%s\"\ntype = \"udp\"\nlocalIP = \"127.0.0.1\"\nlocalPort = %d\nremotePort = %d\n%s", nUDP, pBeUDP, pUDP, tr(l.UDPEnc, l.UDPComp))
+	fmt.Fprintf(&sb, "\n[[proxies]]\nname = \"%s\"\ntype = \"tcp\"\nlocalIP = \"127.0.0.1\"\nlocalPort = %d\nremotePort = %d\nmetadatas = { pm = \"%s\" }\n%s", nTCP, pBeTCP, pTCP, pmeta, tr(l.TCPEnc, l.TCPComp, l.TCPBW))
+	fmt.Fprintf(&sb, "\n[[proxies]]\nname = \"%s\"\ntype = \"http\"\nlocalIP = \"127.0.0.1\"\nlocalPort = %d\ncustomDomains = [\"%s\"]\n%s", nWeb, pBeHTTP, domWeb, tr(l.WebEnc, l.WebComp, l.WebBW))
+	fmt.Fprintf(&sb, "\n[[proxies]]\nname = \"%s\"\ntype = \"http\"\nlocalIP = \"127.0.0.1\"\nlocalPort = %d\ncustomDomains = [\"%s\"]\nhttpUser = \"%s\"\nhttpPassword = \"%s\"\n%s", nWebPw, pBeHTTP, domWebPw, httpUser, pwWeb, tr(l.WebPwEnc, l.WebPwComp, l.WebPwBW))
+	fmt.Fprintf(&sb, "\n[[proxies]]\nname = \"%s\"\ntype = \"stcp\"\nlocalIP = \"127.0.0.1\"\nlocalPort = %d\nsecretKey = \"%s\"\nallowUsers = [\"*\"]\n%s", nSTCP, pBeTCP, skSTCP, tr(l.STCPEnc, l.STCPComp, l.STCPBW))
+	fmt.Fprintf(&sb, "\n[[proxies]]\nname = \"%s\"\ntype = \"udp\"\nlocalIP = \"127.0.0.1\"\nlocalPort = %d\nremotePort = %d\n%s", nUDP, pBeUDP, pUDP, tr(l.UDPEnc, l.UDPComp, l.UDPBW))
 	fmt.Fprintf(&sb, "\n[[proxies]]\nname = \"%s\"\ntype = \"sudp\"\nlocalIP = \"127.0.0.1\"\nlocalPort = %d\nsecretKey = \"%s\"\nallowUsers = [\"*\"]\n", nSUDP, pBeUDP, skSUDP)
 	fmt.Fprintf(&sb, "\n[[proxies]]\nname = \"%s\"\ntype = \"xtcp\"\nlocalIP = \"127.0.0.1\"\nlocalPort = %d\nsecretKey = \"%s\"\nallowUsers = [\"*\"]\n", nXTCP, pBeTCP, skXTCP)
 	fmt.Fprintf(&sb, "\n[[proxies]]\nname = \"%s\"\ntype = \"tcpmux\"\nmultiplexer = \"httpconnect\"\nlocalIP = \"127.0.0.1\"\nlocalPort = %d\ncustomDomains = [\"%s\"]\nhttpUser = \"%s\"\nhttpPassword = \"%s\"\n", nTMux, pBeTCP, domTMux, httpUser, pwTMux)
@@ -602,11 +611,11 @@ func latticeCase(c *h.Case) {
 	blind := false
 	if l.wireTLS() {
 		// rule 2: under TLS neither payload nor control-message content
+		// (a marker that is readable is a violation whether or not the exchange completed: a broken
+		// layering can leak one direction and garble the other)
 		for _, lg := range legs[:5] {
-			if lg.Flowed {
-				absent("tls-payload-in-clear", "payload of the "+lg.Name+" proxy (user->backend)", lg.Up, "P", "V")
-				absent("tls-payload-in-clear", "payload of the "+lg.Name+" proxy (backend->user)", lg.Down, "P", "V")
-			}
+			absent("tls-payload-in-clear", "payload of the "+lg.Name+" proxy (user->backend)", lg.Up, "P", "V")
+			absent("tls-payload-in-clear", "payload of the "+lg.Name+" proxy (backend->user)", lg.Down, "P", "V")
 		}
 		ctl := map[string]string{
 			"login user": userP, "visitor login user": userV, "login metadata": metaP, "visitor login metadata": metaV, "proxy metadata": pmeta,
@@ -628,13 +637,12 @@ func latticeCase(c *h.Case) {
 		}
 		// rule 3: proxy encryption hides payload without TLS; with neither, the payload must be visible
 		for _, lg := range legs {
-			if !lg.Flowed {
-				continue
-			}
 			switch {
 			case lg.Enc:
-				absent("proxy-encryption-payload-in-clear-"+lg.Name, "payload of the encrypted "+lg.Name+" leg (user->backend)", lg.Up, lg.Path)
-				absent("proxy-encryption-payload-in-clear-"+lg.Name, "payload of the encrypted "+lg.Name+" leg (backend->user)", lg.Down, lg.Path)
+				// judged whether or not the exchange completed (see above)
+				absent("proxy-encryption-payload-in-clear-"+lg.Name, "payload of the encrypted "+lg.Name+" leg (user->backend, bandwidthLimit mode \""+lg.BW+"\")", lg.Up, lg.Path)
+				absent("proxy-encryption-payload-in-clear-"+lg.Name, "payload of the encrypted "+lg.Name+" leg (backend->user, bandwidthLimit mode \""+lg.BW+"\")", lg.Down, lg.Path)
+			case !lg.Flowed:
 			case !lg.Comp:
 				if !present(lg.Up, lg.Path) || !present(lg.Down, lg.Path) {
 					blind = true
